@@ -1104,4 +1104,196 @@ theorem rt_proc (kw name : Tok) (ps : Option ParamList) (body : List (Stmt ε)) 
       (by intro a ha; cases ha) hg
   simpa [Decl.toks] using hfin
 
+theorem rt_func (kw name : Tok) (ps : Option ParamList) (ret ty : Tok) (body : List (Stmt ε)) (endT : Tok)
+    (h : (Decl.func kw name ps ret ty body endT).WF X) : DeclRT X (.func kw name ps ret ty body endT) := by
+  intro k _
+  obtain ⟨hkw, hn, hps, hret, hty, hb, hfree, he⟩ := h
+  have hB : SStop (Stmts.toks X body ++ endT :: k) := sstop_stmts X body hb _ (sstop_end k (by rw [he]; decide))
+  have hR : SStop (ret :: ty :: (Stmts.toks X body ++ endT :: k)) := SStop.cons (by rw [hret]; decide +kernel)
+  have hbasic : Parses (.ref nTypeBasic) (ty :: (Stmts.toks X body ++ endT :: k)) (Stmts.toks X body ++ endT :: k) (typeBasic ty) :=
+    Parses.ref (n := nTypeBasic) (Parses.map (fn := fun t => mk "type_basic" t.ident t.rng []) (Parses.tok hty))
+  have hhdr := Parses.seqL (ParsesList.cons (Parses.tok hkw)
+    (ParsesList.cons (parses_methodname name _ hn (fails_pound ps hps _ hR))
+      (ParsesList.cons (parses_optparams ps hps _ hR) (ParsesList.cons (Parses.tok hret) (ParsesList.cons hbasic
+        (ParsesList.cons (parses_methodmods _ hB) ParsesList.nil))))))
+  have hres := parses_reslice X hX [Kind.EndFunc, Kind.End] body hb hfree endT (by rw [he]; decide) k
+  have hdep := Parses.s_dep_yes (test := fun h => hasBody (methodModsNode (h.nth 5))) hhdr rfl hres
+  have hemit := Parses.s_emit (fn := fun v =>
+        let rs := v.nth 1
+        if rs.isSome && (rs.nth 1).isNone then some ⟨((v.nth 0).nth 0).rng, "func end token not found"⟩ else none) hdep rfl
+  have hg : Parses gFunc (kw :: name :: (optParamsToks ps ++ ret :: ty :: (Stmts.toks X body ++ endT :: k))) k
+      (Decl.tree X (.func kw name ps ret ty body endT)) :=
+    (Parses.map hemit).s_to (by
+      cases ps with
+      | none =>
+        exact congrArg (fun b => Gram.mk "func_decl" name.value (Range.span kw.rng endT.rng)
+          ([terminal (.leaf name), typeBasic ty] ++ [] ++ [b]) [] (some name.rng))
+          (bodyNode_resVal X body hb endT (typeBasic ty))
+      | some p =>
+        cases p with
+        | empty lp rp =>
+          exact congrArg (fun b => Gram.mk "func_decl" name.value (Range.span kw.rng endT.rng)
+            ([terminal (.leaf name), typeBasic ty] ++ [(ParamList.empty lp rp).tree] ++ [b]) [] (some name.rng))
+            (bodyNode_resVal X body hb endT (typeBasic ty))
+        | cons lp first rest rp =>
+          exact congrArg (fun b => Gram.mk "func_decl" name.value (Range.span kw.rng endT.rng)
+            ([terminal (.leaf name), typeBasic ty] ++ [(ParamList.cons lp first rest rp).tree] ++ [b]) [] (some name.rng))
+            (bodyNode_resVal X body hb endT (typeBasic ty)))
+  have hfin : Parses gTopItem (kw :: name :: (optParamsToks ps ++ ret :: ty :: (Stmts.toks X body ++ endT :: k))) k _ :=
+    Parses.altL (pre := [gProc]) (post := [gComment, gClass, gModule, gUses, gTypeDecl, gConstDecl, gGlobalVar, .ref nAnnotations])
+      (by
+        intro a ha
+        simp only [List.mem_cons, List.not_mem_nil, or_false] at ha
+        subst ha
+        exact fails_gProc kw _ (by rw [hkw]; decide) (by rw [hkw]; decide)) hg
+  simpa [Decl.toks] using hfin
+
+omit hX
+
+/-- the declaration parsers of `parse_gold` tried before `parse_global_variable_declaration`, with their first tokens -/
+def topKw : List (G × List Kind) :=
+  [(gProc, [Kind.Proc]), (gFunc, [Kind.Func]), (gComment, [Kind.Comment]), (gClass, [Kind.OSqrBracket, Kind.Class]),
+   (gModule, [Kind.OSqrBracket, Kind.Module]), (gUses, [Kind.Uses]), (gTypeDecl, [Kind.OSqrBracket, Kind.Type]),
+   (gConstDecl, [Kind.Const])]
+
+theorem topKw_fail (t : Tok) (r : List Tok) (hc : t.kind ≠ Kind.Comment) :
+    ∀ p ∈ topKw, (∀ x ∈ p.2, t.kind ≠ x) → Fails p.1 (t :: r) := by
+  intro p hp hx
+  simp only [topKw, List.mem_cons, List.not_mem_nil, or_false] at hp
+  rcases hp with rfl | rfl | rfl | rfl | rfl | rfl | rfl | rfl
+  · exact fails_gProc t r (hx _ (by simp)) hc
+  · exact fails_gFunc t r (hx _ (by simp)) hc
+  · exact Fails.map (Fails.tok (hx _ (by simp)) hc)
+  · exact Fails.map (fails_optAnn_then t r _ _ (hx _ (by simp)) (hx _ (by simp)) hc)
+  · exact Fails.map (fails_optAnn_then t r _ _ (hx _ (by simp)) (hx _ (by simp)) hc)
+  · exact Fails.map (fails_kw_seqL t r _ _ (hx _ (by simp)) hc)
+  · exact Fails.map (fails_optAnn_then t r _ _ (hx _ (by simp)) (hx _ (by simp)) hc)
+  · exact Fails.map (Fails.seqL (pre := []) ParsesList.nil (Fails.s_prepend (fails_kw_seqL t r _ _ (hx _ (by simp)) hc)))
+
+theorem top_via (n : Nat) (g : G) (post : List G) (hsplit : gTopItem = altL ((topKw.take n).map Prod.fst ++ g :: post))
+    (t : Tok) (r k : List Tok) (v : Tree) (hc : t.kind ≠ Kind.Comment)
+    (h : ∀ p ∈ topKw.take n, ∀ x ∈ p.2, t.kind ≠ x) (hg : Parses g (t :: r) k v) :
+    Parses gTopItem (t :: r) k v := by
+  rw [hsplit]
+  refine Parses.altL ?_ hg
+  intro a ha
+  obtain ⟨p, hp, rfl⟩ := List.mem_map.mp ha
+  exact topKw_fail t r hc p (List.mem_of_mem_take hp) (h p hp)
+
+theorem rt_const (kw name eq lit : Tok) (h : (Decl.const kw name eq lit : Decl ε).WF X) : DeclRT X (.const kw name eq lit) := by
+  intro k hk
+  obtain ⟨hkw, hn, heq, hlit⟩ := h
+  have hc : kw.kind ≠ Kind.Comment := by rw [hkw]; decide
+  have hlc : lit.kind ≠ Kind.Comment := by
+    intro e; rw [e] at hlit; revert hlit; decide
+  have hhead := Parses.s_prepend (s := "Cannot parse constant decl: ")
+    (Parses.seqL (ParsesList.cons (Parses.tok hkw) (ParsesList.cons (Parses.tok hn) (ParsesList.cons (Parses.tok heq)
+      (ParsesList.cons (Parses.toks (r := k) hlit hlc) ParsesList.nil)))))
+  have hml : Parses (.opt (.tok Kind.MultiLang)) k k Tree.none := Parses.s_opt_none (hk.fails_tok _ (by decide))
+  have hg : Parses gConstDecl (kw :: name :: eq :: lit :: k) k (Decl.tree X (.const kw name eq lit)) :=
+    (Parses.map (Parses.seqL (ParsesList.cons hhead (ParsesList.cons hml ParsesList.nil)))).s_to rfl
+  exact top_via 7 gConstDecl [gGlobalVar, .ref nAnnotations] rfl kw _ k _ hc (by rw [hkw]; decide +kernel) hg
+
+theorem parses_membermods (k : List Tok) (hk : TStop k) : Parses (.ref nMemberMods) k k (Tree.list []) := by
+  cases k with
+  | nil => exact Parses.ref (n := nMemberMods) (Parses.s_ifEof_nil Parses.eps)
+  | cons t r =>
+    exact Parses.ref (n := nMemberMods) (Parses.s_ifEof_cons (a := .eps (Tree.list []))
+      (Parses.alt2 (Fails.map (Fails.seq1 (hk.fails_toks _ (by decide)))) Parses.eps))
+
+theorem rt_field (name colon ty : Tok) (h : (Decl.field name colon ty : Decl ε).WF X) : DeclRT X (.field name colon ty) := by
+  intro k hk
+  obtain ⟨hn, hcol, hty⟩ := h
+  have hc : name.kind ≠ Kind.Comment := by rw [hn]; decide
+  have hann : Parses optAnn (name :: colon :: ty :: k) (name :: colon :: ty :: k) Tree.none :=
+    Parses.s_opt_none (Fails.ref (n := nAnnotations) (Fails.map (Fails.seq1 (Fails.tok (by rw [hn]; decide) hc))))
+  have hmem : Parses (.opt (.tok Kind.Memory)) (name :: colon :: ty :: k) (name :: colon :: ty :: k) Tree.none :=
+    Parses.s_opt_none (Fails.tok (by rw [hn]; decide) hc)
+  have htype := parses_type_basic ty k hty (hk.fails_tok _ (by decide)) (hk.fails_tok _ (by decide))
+  have habs : Parses (.dep (.opt (.tok Kind.Absolute)) Tree.isSome (.ref nIdentifier)) k k (Tree.seq [Tree.none, Tree.none]) :=
+    Parses.s_dep_no (Parses.s_opt_none (hk.fails_tok _ (by decide))) rfl
+  have hg : Parses gGlobalVar (name :: colon :: ty :: k) k (Decl.tree X (.field name colon ty)) :=
+    (Parses.map (Parses.seqL (ParsesList.cons hann (ParsesList.cons hmem (ParsesList.cons (Parses.tok hn)
+      (ParsesList.cons (Parses.tok hcol) (ParsesList.cons htype (ParsesList.cons (parses_membermods k hk)
+        (ParsesList.cons habs ParsesList.nil))))))))).s_to rfl
+  exact top_via 8 gGlobalVar [.ref nAnnotations] rfl name _ k _ hc (by rw [hn]; decide +kernel) hg
+
+theorem rt_cls (kw name : Tok) (parent : Option (Tok × Tok × Tok)) (h : (Decl.cls kw name parent : Decl ε).WF X) :
+    DeclRT X (.cls kw name parent) := by
+  intro k hk
+  obtain ⟨hkw, hn, hp⟩ := h
+  have hc : kw.kind ≠ Kind.Comment := by rw [hkw]; decide
+  have hann (r : List Tok) : Parses optAnn (kw :: r) (kw :: r) Tree.none :=
+    Parses.s_opt_none (Fails.ref (n := nAnnotations) (Fails.map (Fails.seq1 (Fails.tok (by rw [hkw]; decide) hc))))
+  cases parent with
+  | none =>
+    have hpar : Parses (.opt gParentClass) k k Tree.none :=
+      Parses.s_opt_none (Fails.seqL (pre := []) ParsesList.nil (hk.fails_tok _ (by decide)))
+    have hg : Parses gClass (kw :: name :: k) k (Decl.tree X (.cls kw name none)) :=
+      (Parses.map (Parses.seqL (ParsesList.cons (hann _) (ParsesList.cons (Parses.tok hkw) (ParsesList.cons (Parses.tok hn)
+        (ParsesList.cons hpar ParsesList.nil)))))).s_to rfl
+    exact top_via 3 gClass [gModule, gUses, gTypeDecl, gConstDecl, gGlobalVar, .ref nAnnotations] rfl kw _ k _ hc
+      (by rw [hkw]; decide +kernel) hg
+  | some q =>
+    obtain ⟨lp, p, rp⟩ := q
+    obtain ⟨hlp, hpp, hrp⟩ := hp
+    have hpar : Parses (.opt gParentClass) (lp :: p :: rp :: k) k (Tree.seq [.leaf lp, .leaf p, .leaf rp]) :=
+      Parses.s_opt (Parses.seqL (ParsesList.cons (Parses.tok hlp) (ParsesList.cons (Parses.tok hpp)
+        (ParsesList.cons (Parses.tok hrp) ParsesList.nil))))
+    have hg : Parses gClass (kw :: name :: lp :: p :: rp :: k) k (Decl.tree X (.cls kw name (some (lp, p, rp)))) :=
+      (Parses.map (Parses.seqL (ParsesList.cons (hann _) (ParsesList.cons (Parses.tok hkw) (ParsesList.cons (Parses.tok hn)
+        (ParsesList.cons hpar ParsesList.nil)))))).s_to rfl
+    exact top_via 3 gClass [gModule, gUses, gTypeDecl, gConstDecl, gGlobalVar, .ref nAnnotations] rfl kw _ k _ hc
+      (by rw [hkw]; decide +kernel) hg
+
+/-! ## the top-level loop -/
+
+include hX in
+theorem decl_rt (d : Decl ε) (h : d.WF X) : DeclRT X d := by
+  cases d with
+  | proc kw name ps body endT => exact rt_proc X hX kw name ps body endT h
+  | func kw name ps ret ty body endT => exact rt_func X hX kw name ps ret ty body endT h
+  | const kw name eq lit => exact rt_const X kw name eq lit h
+  | field name colon ty => exact rt_field X name colon ty h
+  | cls kw name parent => exact rt_cls X kw name parent h
+
+theorem Decl.first (d : Decl ε) (h : d.WF X) : ∃ t r, d.toks X = t :: r ∧ t.kind ∈ declStarts := by
+  cases d with
+  | proc kw name ps body endT => exact ⟨kw, _, rfl, by rw [h.1]; decide⟩
+  | func kw name ps ret ty body endT => exact ⟨kw, _, rfl, by rw [h.1]; decide⟩
+  | const kw name eq lit => exact ⟨kw, _, rfl, by rw [h.1]; decide⟩
+  | field name colon ty => exact ⟨name, _, rfl, by rw [h.1]; decide⟩
+  | cls kw name parent => exact ⟨kw, _, rfl, by rw [h.1]; decide⟩
+
+theorem Decl.tree_ok (d : Decl ε) : okTree (d.tree X) = true := by
+  cases d with
+  | cls kw name parent => cases parent <;> rfl
+  | _ => rfl
+
+theorem tstop_prog (p : Prog ε) (h : Prog.WF X p) : TStop (Prog.toks X p) := by
+  cases p with
+  | nil => exact TStop.nil
+  | cons d rest =>
+    obtain ⟨t, r, ht, hs⟩ := Decl.first X d h.1
+    intro t' r' e
+    simp only [Prog.toks, ht, List.cons_append, List.cons.injEq] at e
+    exact e.1 ▸ hs
+
+include hX in
+/-- `parse_gold`: every well-formed declaration in turn; the file-level `recover` does not fire -/
+theorem top_loop (p : Prog ε) (hwf : Prog.WF X p) : Parses (.ref nTop) (Prog.toks X p) [] (Tree.list (Prog.trees X p)) := by
+  induction p with
+  | nil => exact Parses.ref (n := nTop) (Parses.s_ifEof_nil Parses.eps)
+  | cons d rest ih =>
+    obtain ⟨t, r, ht, _⟩ := Decl.first X d hwf.1
+    have hd := decl_rt X hX d hwf.1 _ (tstop_prog X rest hwf.2)
+    have ih' := ih hwf.2
+    simp only [Prog.toks, Prog.trees]
+    rw [ht] at hd ⊢
+    simp only [List.cons_append] at hd ⊢
+    have := Parses.map (fn := fun v => Tree.list (optList (v.nth 0) ++ (v.nth 1).kids))
+      (Parses.seq (Parses.s_recover (m := .topSpan) hd) ih')
+    exact Parses.ref (n := nTop) (Parses.s_ifEof_cons (a := .eps (Tree.list [])) (this.s_to (by
+      simp [Tree.nth, Tree.seq, Tree.kids, Tree.list, optList_ok (Decl.tree_ok X d)])))
+
 end Gold.C06
